@@ -558,3 +558,8 @@ M('C05', 'dof map strides not reversed at the end', 'evaluable.py', "strides = (
 M('C05', 'benign: dof map strides with reversed()', 'evaluable.py', "strides = (1, *itertools.accumulate(self.dofmap.shape[:0:-1], operator.mul))[::-1]", "strides = tuple(reversed((1, *itertools.accumulate(reversed(self.dofmap.shape[1:]), operator.mul))))", expect='silent')
 M('C05', 'seed C05-agent-2: cluster scan stops after the first merge', 'evaluable.py', "                    uninserted = align(uninserted, numpy.searchsorted(where, w), shape) * align(unins_, numpy.searchsorted(where, w_), shape)\n            clusters.append((uninserted, where))", "                    uninserted = align(uninserted, numpy.searchsorted(where, w), shape) * align(unins_, numpy.searchsorted(where, w_), shape)\n                    break\n            clusters.append((uninserted, where))", rule='R05.7')
 M('C05', 'benign: cluster overlap test with isdisjoint', 'evaluable.py', "                if set(where) & set(clusters[i][1]):\n                    w = where", "                if not set(where).isdisjoint(clusters[i][1]):\n                    w = where", expect='silent')
+M('C14', 'seed C14-agent2-3: Direct accepts non-linear systems', 'solver.py', "    def __call__(self, system, *, arguments: ArrayDict = {}, constrain: ArrayDict = {}) -> System.MethodValue:\n        if not system.is_linear:\n            raise ValueError('problem is not linear')\n", "    def __call__(self, system, *, arguments: ArrayDict = {}, constrain: ArrayDict = {}) -> System.MethodValue:\n", rule='R14.8')
+M('C14', 'Newton reports the residual of the previous state', 'solver.py', "            jac, res = system.assemble_jacobian_residual(arguments, x)\n            yield system.construct(arguments, x), numpy.linalg.norm(res)\n            x -= jac.solve_leniently(res, **linargs)\n\n\nclass ReuseNewton", "            jac, res = system.assemble_jacobian_residual(arguments, x)\n            x -= jac.solve_leniently(res, **linargs)\n            yield system.construct(arguments, x), numpy.linalg.norm(res)\n\n\nclass ReuseNewton", rule='R14.8')
+M('C14', 'ReuseNewton keeps the old residual norm for the new state', 'solver.py', "                resnorm = newresnorm\n                res = newres\n                x = newx\n                yield system.construct(arguments, x), resnorm", "                res = newres\n                x = newx\n                yield system.construct(arguments, x), resnorm\n                resnorm = newresnorm", rule='R14.8')
+M('C14', 'LinesearchNewton hands out the rejected trial state', 'solver.py', "                if relax <= self.failrelax:\n                    raise SolverError('stuck in local minimum')\n            x = newx\n\n\nclass Minimize", "                if relax <= self.failrelax:\n                    raise SolverError('stuck in local minimum')\n            x = x + dx\n\n\nclass Minimize", rule='R14.8')
+M('C14', 'benign: Newton names the norm first', 'solver.py', "            jac, res = system.assemble_jacobian_residual(arguments, x)\n            yield system.construct(arguments, x), numpy.linalg.norm(res)\n            x -= jac.solve_leniently(res, **linargs)\n\n\nclass ReuseNewton", "            jac, res = system.assemble_jacobian_residual(arguments, x)\n            resnorm = numpy.linalg.norm(res)\n            yield system.construct(arguments, x), resnorm\n            x -= jac.solve_leniently(res, **linargs)\n\n\nclass ReuseNewton", expect='silent')
